@@ -199,15 +199,23 @@ def walk_stream(stream, dec):
     return table, contents
 
 
-def run_server(sb, root, stream, strace_out=None, mem_limit_kb=262144, timeout=20):
+def run_server(sb, root, stream, strace_out=None, mem_limit_kb=262144, timeout=20, pre_extra="", rust_log=None):
+    """rust_log: None = the sandbox's setting (logging off); "default" = RUST_LOG unset, as in an ordinary account (the hub's own
+    default filter applies); any other string = that filter. The reply stream is the server's stdout: whatever the logging
+    configuration, nothing but reply frames may appear there."""
     cmd = [CLI_BIN, "serve", root]
-    pre = f"ulimit -v {mem_limit_kb}; "
+    env = dict(sb.env)
+    if rust_log == "default":
+        env.pop("RUST_LOG", None)
+    elif rust_log:
+        env["RUST_LOG"] = rust_log
+    pre = f"ulimit -v {mem_limit_kb}; " + pre_extra
     if strace_out:
         sh = pre + f"exec strace -f -qq -s 8192 -e trace=%file -o {strace_out} " + " ".join(map(shq, cmd))
     else:
         sh = pre + "exec " + " ".join(map(shq, cmd))
     try:
-        r = subprocess.run(["bash", "-c", sh], input=stream, env=sb.env, cwd=sb.dir, stdout=subprocess.PIPE, stderr=subprocess.PIPE, timeout=timeout)
+        r = subprocess.run(["bash", "-c", sh], input=stream, env=env, cwd=sb.dir, stdout=subprocess.PIPE, stderr=subprocess.PIPE, timeout=timeout)
         return r.returncode, r.stdout, r.stderr.decode("utf-8", "replace")
     except subprocess.TimeoutExpired as e:
         return "timeout", e.stdout or b"", (e.stderr or b"").decode("utf-8", "replace")
@@ -393,8 +401,37 @@ def gen_stream(rng, tree):
     return stream + b"\x00\x00", "trailing-partial-prefix", desc
 
 
+def fs_failure_sessions(rng, res, count):
+    """C12: requests that are well-formed, pass every check and then FAIL at their last file-system step (Put / Delete whose
+    target is a non-empty directory). The server may answer with an error, but its output must stay a sequence of well-formed
+    frames: every later reply is the reply a fresh session gives (nothing else may ever be written to the reply stream)."""
+    e = bytes.fromhex(blake3_hex([b"x"])[0])
+    for which, rl in (("put-onto-directory", "default"), ("delete-directory", "default"), ("put-dot", "trace"), ("put-onto-directory", "trace")):
+        tree = {"f": b"payload of f", "d/inner.txt": b"inside"}
+        bad = {"put-onto-directory": frame(req_put("d", None, 1, e)) + b"x", "delete-directory": frame(req_delete("d", None)),
+               "put-dot": frame(req_put(".", None, 1, e)) + b"x"}[which]
+        with Sandbox("C12") as sb:
+            root = sb.path("hub"); sb.write_tree(root, tree); os.makedirs(os.path.join(root, ".copia"), exist_ok=True)
+            rc0, ref, _ = run_server(sb, root, MAGIC + frame(req_hello()) + frame(req_get("f")) + frame(req_list()) + frame(req_bye()))
+        with Sandbox("C12") as sb:
+            root = sb.path("hub"); sb.write_tree(root, tree); os.makedirs(os.path.join(root, ".copia"), exist_ok=True)
+            rc, out, err = run_server(sb, root, MAGIC + frame(req_hello()) + bad + frame(req_get("f")) + frame(req_list()) + frame(req_bye()), rust_log=rl)
+            after = hub_tree(root)
+        count("stream/fs-failure-at-commit")
+        rt, ot = parse_replies(ref), parse_replies(out)
+        rep = {"kind": which, "RUST_LOG": rl, "rc": rc, "stderr": err[-300:], "replies": ot[:6], "fresh_session_replies": rt[:6], "stdout_hex": out[:200].hex()}
+        if rc not in (0, 1):
+            res["violations"].append(("server-killed-by-signal", f"copia serve ended with {rc} on {which}", rep))
+        # in step: hello, ONE reply to the failing request, then exactly the fresh session's Get and List replies
+        if rc == 0 and (len(ot) != len(rt) + 1 or ot[0] != rt[0] or ot[2:] != rt[1:]):
+            res["violations"].append(("replies-out-of-step-after-fs-failure", f"after a {which} request that failed in the file system the reply stream is not the fresh session's (extra bytes in the stream?)", rep))
+        if {k: v for k, v in after.items() if not k.endswith(".copia-tmp")} != tree:
+            res["violations"].append(("tree-changed-by-failed-request", f"{which} failed and yet the served tree changed", rep))
+
+
 def run_c12(pid, tier, seed, rundir, model_run, res, count):
     rng = Rng(seed ^ 0xC12)
+    fs_failure_sessions(rng, res, count)
     n = 160 * (12 if tier == "thorough" else 1)
     dec = ReqDecoder()
     ops, impl, reps = [], [], []
@@ -410,7 +447,7 @@ def run_c12(pid, tier, seed, rundir, model_run, res, count):
             root = sb.path("hub")
             sb.write_tree(root, tree)
             os.makedirs(os.path.join(root, ".copia"), exist_ok=True)
-            rc, out, err = run_server(sb, root, stream)
+            rc, out, err = run_server(sb, root, stream, rust_log=[None, "default", "trace"][i % 3])
             after = hub_tree(root)
         table, contents = walk_stream(stream, dec)
         toks = parse_replies(out)
